@@ -498,9 +498,7 @@ def history_checks(ctx, mk, yaml, tmp):
             history = []
             done = []
             for label, conf, conf_cli, files in specs:
-                for path, text in files.items():
-                    with open(path, "w", encoding="utf-8") as fh:
-                        fh.write(text)
+                put_files(hcli, files)
                 single = len(conf["groups"]) == 1
                 via = ctx.rng.choice(["grouped", "flat", "yaml_stream", "yaml_file", "flat_yaml_stream"] if single
                                      else ["grouped", "yaml_stream", "yaml_file"])
@@ -572,9 +570,7 @@ def history_checks(ctx, mk, yaml, tmp):
                 history.append(conf)
             # released again, the last one first (every specification now has all the others behind it)
             for label, conf, files, tab, cs in reversed(done):
-                for path, text in files.items():
-                    with open(path, "w", encoding="utf-8") as fh:
-                        fh.write(text)
+                put_files(hcli, files)
                 again = mk.make_release(copy.deepcopy(conf))
                 ok, msg = tables_equal(tab, again)
                 ctx.oracle(ok, "C18.history.not_reproducible", site,
@@ -583,9 +579,7 @@ def history_checks(ctx, mk, yaml, tmp):
         hcli.drain()
         # a pristine import of the module (no release made with it yet) gives the table this process gave
         for label, conf, files, tab, cs in later:
-            for path, text in files.items():
-                with open(path, "w", encoding="utf-8") as fh:
-                    fh.write(text)
+            put_files(hcli, files)
             pristine = fresh_import(mk).make_release(copy.deepcopy(conf))
             ok, msg = tables_equal(pristine, tab)
             ctx.oracle(ok, "C18.history.pristine_import_differs", site,
@@ -598,6 +592,28 @@ def history_checks(ctx, mk, yaml, tmp):
                 p.kill()
             except Exception:
                 pass
+
+
+def put_files(hcli, files):
+    """(re)write the auxiliary files of a specification.  Command-line children started earlier may not have read
+    their input yet: a file whose content changes is only replaced after they have finished (`drain`), and always
+    atomically (temp file + os.replace), so that no reader ever sees a truncated or half-written file."""
+    changed = []
+    for path, text in files.items():
+        try:
+            with open(path, encoding="utf-8") as fh:
+                same = fh.read() == text
+        except OSError:
+            same = False
+        if not same:
+            changed.append((path, text))
+    if changed and hcli is not None:
+        hcli.drain()
+    for path, text in changed:
+        tmp = path + ".tmp%d" % os.getpid()
+        with open(tmp, "w", encoding="utf-8") as fh:
+            fh.write(text)
+        os.replace(tmp, path)
 
 
 class Cli:
